@@ -102,6 +102,7 @@ def normalize(cfg: Dict[str, Any]) -> Dict[str, Any]:
     c["noparse"] = bool(c.get("noparse", False))
     c["synconly"] = bool(c.get("synconly", False))
     c["late_sync_first"] = bool(c.get("late_sync_first", False))
+    c["bystander"] = bool(c.get("bystander", False))
     c["bsusp"] = bool(c.pop("backend_suspend", c.get("bsusp", False)))
     c["msgs"] = [{**MSG_DEFAULT, **m} for m in c.get("msgs", [])]
     for i, m in enumerate(c["msgs"], start=1):
